@@ -382,6 +382,50 @@ func runC17(c *Ctx) {
 			c.Check(fname(sam)+"#nonce-before-handler", ci.Pos(), ok2, ifelse(ok2, "SetNonce(from, GetNonce+1) dominates the handler dispatch", "a staking transaction is handled without the sender's nonce having been raised: it can be applied again"))
 		}
 	}
+	// every return that reports the transaction as included (nil error: it is charged and gets a receipt, also when
+	// it "failed") has passed the bump — or, in the EVM converter, the creation call that contains it
+	for _, fn := range []*ssa.Function{tdb, sam} {
+		gates := append([]ssa.Instruction(nil), bumpSites(fn)...)
+		for _, ci := range callInstrs(fn) {
+			if o := calleeObj(ci); o != nil && o.Name() == "Create" && recvName(o) == "EVM" {
+				gates = append(gates, ci.(ssa.Instruction))
+			}
+		}
+		k := 0
+		for _, b := range fn.Blocks {
+			ret, isRet := b.Instrs[len(b.Instrs)-1].(*ssa.Return)
+			if !isRet || len(ret.Results) == 0 {
+				continue
+			}
+			ev := ret.Results[len(ret.Results)-1]
+			if cv, isC := ev.(*ssa.Const); !isC || !cv.IsNil() {
+				// an error value: skip the return when it is known to be non-nil here
+				known := false
+				if _, isC := ev.(*ssa.Const); !isC {
+					for _, a := range atomsOf(factsAt(b)) {
+						if a.Kind == "isnil" && a.X == ev && !a.Truth {
+							known = true
+						}
+					}
+					if _, isMI := ev.(*ssa.MakeInterface); isMI {
+						known = true
+					}
+					if u, isU := ev.(*ssa.UnOp); isU {
+						if _, isG := u.X.(*ssa.Global); isG {
+							known = true // a package-level error value
+						}
+					}
+				}
+				if known {
+					continue
+				}
+			}
+			c.sites++
+			ok := mustPassBefore(ret, gates)
+			c.Check(fmt.Sprintf("%s#included-return-%d-after-nonce-bump", fname(fn), k), ret.Pos(), ok, ifelse(ok, "the return is reached only after the sender's nonce was raised", "the converter can report the transaction as included (nil error: gas is charged, a receipt is made) on a path that did not raise the sender's nonce: the same signed transaction can be applied again and again"))
+			k++
+		}
+	}
 	// the raised nonce survives a failed execution: the bump is not inside a snapshot that the same function reverts
 	for _, fn := range []*ssa.Function{tdb, crt, sam} {
 		for _, bump := range bumpSites(fn) {
@@ -567,6 +611,62 @@ func runC17(c *Ctx) {
 		})
 	}
 	c.Check(fname(rg)+"#refund-cap-and-same-gas", rg.Pos(), capOK && sameGas, ifelse(capOK && sameGas, "refund ≤ GasUsed()/2; sender and block pool get the same AvailableGas", fmt.Sprintf("refund discipline broken (cap=%v same-gas=%v)", capOK, sameGas)))
+	c.Rule("C17.T7", "PROVENANCE", "gas is priced in full precision: the amounts that buyGas compares with the balance and debits, that refundGas credits, and that ApplyTransaction adds to the block's gas rewards are big.Int products — none of them derives from a machine-integer multiplication or from a big.Int truncated with Uint64()/Int64(). With limit x price computed in uint64 a pair like (2^20, 2^44) wraps to ~0: a sender that cannot pay is applied, and the full-precision refund mints the difference")
+	c.Min(3)
+	{
+		truncates := func(v ssa.Value) string {
+			why := ""
+			derivesFrom(v, func(x ssa.Value) bool {
+				switch y := x.(type) {
+				case *ssa.BinOp:
+					if b, ok := y.Type().Underlying().(*types.Basic); ok && b.Info()&types.IsInteger != 0 && (y.Op == token.MUL || y.Op == token.SHL) {
+						why = "a machine-integer " + y.Op.String() + " at " + w.Pos(y.Pos())
+						return true
+					}
+				case *ssa.Call:
+					if o := calleeObj(y); o != nil && o.Pkg() != nil && o.Pkg().Path() == "math/big" && recvName(o) == "Int" && (o.Name() == "Uint64" || o.Name() == "Int64") {
+						why = "a big.Int truncated with " + o.Name() + "() at " + w.Pos(y.Pos())
+						return true
+					}
+				}
+				return false
+			})
+			return why
+		}
+		for _, spec := range []struct{ rel, recv, name string }{{"core", "MessageContext", "buyGas"}, {"core", "MessageContext", "refundGas"}, {"core", "StateProcessor", "ApplyTransaction"}} {
+			fn := w.Fn(spec.rel, spec.recv, spec.name)
+			c.sawFunc(fname(fn))
+			k := 0
+			for _, ci := range callInstrs(fn) {
+				o := calleeObj(ci)
+				if o == nil {
+					continue
+				}
+				var amounts []ssa.Value
+				switch {
+				case o.Name() == "AddBalance" || o.Name() == "SubBalance":
+					args := callArgs(ci)
+					amounts = append(amounts, args[len(args)-1])
+				case o.Pkg() != nil && o.Pkg().Path() == "math/big" && o.Name() == "Cmp" && spec.name == "buyGas":
+					amounts = append(amounts, callArgs(ci)...)
+				case o.Pkg() != nil && o.Pkg().Path() == "math/big" && o.Name() == "Add" && spec.name == "ApplyTransaction":
+					amounts = append(amounts, callArgs(ci)...)
+				default:
+					continue
+				}
+				c.sites++
+				why := ""
+				for _, a := range amounts {
+					if y := truncates(a); y != "" {
+						why = y
+					}
+				}
+				c.Check(fmt.Sprintf("%s#amount-%d-full-precision", fname(fn), k), ci.Pos(), why == "", ifelse(why == "", "the amount is built from big.Int products only", "the amount derives from "+why+": limit x price wraps modulo 2^64 while the other side of the purchase / refund is computed in full precision"))
+				k++
+			}
+		}
+	}
+
 	// ------------------------------------------------------------ T6
 	c.Rule("C17.T6", "NO-EFFECT-BEFORE", "a staking transaction that fails is charged its gas and nothing else: every registered staking handler (no snapshot surrounds them; a handler error marks the transaction failed but included) changes state only on its success tail — after the first state change (debit of the staked value, record, validator update) no error return is reachable. Shared with C09.J4")
 	c.Min(9)
